@@ -646,3 +646,66 @@ Proof.
     unfold Qdiv. apply Qmult_lt_0_compat; [apply Qmult_lt_0_compat; assumption|].
     apply Qinv_lt_0_compat. exact HM.
 Qed.
+
+(* ================================================================ 12. when does more than one atom remain *)
+Lemma two_keys_length : forall (l : list atom) a b, NoDup l -> In a l -> In b l -> a <> b -> (2 <= length l)%nat.
+Proof.
+  intros l a b Hnd Ha Hb Hne. destruct l as [|x [|y r]]; simpl in *.
+  - contradiction.
+  - destruct Ha as [Ha|[]], Hb as [Hb|[]]. subst. contradiction.
+  - lia.
+Qed.
+
+Lemma f_replace_atoms_length : forall E f src tgt p ns, src <> tgt -> dget (f_atoms f) src = Some ns ->
+  length (f_atoms (f_replace E f src tgt p)) = length (substituted (f_atoms f) src tgt ns p).
+Proof.
+  intros E f src tgt p ns Hne Hs. unfold f_replace. rewrite Hs, (atom_eqb_neq _ _ Hne).
+  unfold f_atoms at 1. rewrite formula_of_dict_struct. apply hill_count_length.
+  apply nodup_substituted, nodup_f_atoms.
+Qed.
+
+(* a partial substitution (portion <> 1) of a present source by a different atom leaves both in
+   the formula, so an unknown density stays unknown *)
+Theorem replace_partial_unknown_stays_unknown : forall E f src tgt p ns, src <> tgt ->
+  dget (f_atoms f) src = Some ns -> ~ p == 1 -> f_density f = None ->
+  f_density (f_replace E f src tgt p) = None.
+Proof.
+  intros E f src tgt p ns Hne Hs Hp Hd. apply replace_unknown_stays_unknown; [exact Hd|].
+  rewrite (f_replace_atoms_length E f src tgt p ns Hne Hs). unfold substituted.
+  destruct (Qeq_bool p 1) eqn:Ep; [apply Qeq_bool_iff in Ep; contradiction|].
+  set (d := dict_set (dict_set (f_atoms f) tgt (dget0 (f_atoms f) tgt + ns * p)) src _).
+  assert (H2 : (2 <= length (keys d))%nat).
+  { apply (two_keys_length (keys d) src tgt).
+    - unfold d. apply nodup_dict_set, nodup_dict_set, nodup_f_atoms.
+    - unfold d. apply keys_dict_set_in. left. reflexivity.
+    - unfold d. apply keys_dict_set_in. right. apply keys_dict_set_in. left. reflexivity.
+    - exact Hne. }
+  unfold keys in H2. rewrite map_length in H2. lia.
+Qed.
+
+(* a full substitution in a formula holding a third atom also leaves more than one atom *)
+Theorem replace_third_atom_unknown_stays_unknown : forall E f src tgt p ns b, src <> tgt ->
+  dget (f_atoms f) src = Some ns -> b <> src -> b <> tgt -> In b (keys (f_atoms f)) -> f_density f = None ->
+  f_density (f_replace E f src tgt p) = None.
+Proof.
+  intros E f src tgt p ns b Hne Hs Hbs Hbt Hin Hd. apply replace_unknown_stays_unknown; [exact Hd|].
+  rewrite (f_replace_atoms_length E f src tgt p ns Hne Hs).
+  set (d := substituted (f_atoms f) src tgt ns p).
+  assert (Hb : In b (keys d) /\ In tgt (keys d)).
+  { unfold d, substituted. destruct (Qeq_bool p 1).
+    - unfold dict_del, keys. split; apply in_map_iff.
+      + assert (Hb' : In b (keys (dict_set (f_atoms f) tgt (dget0 (f_atoms f) tgt + ns * p))))
+          by (apply keys_dict_set_in; right; exact Hin).
+        unfold keys in Hb'. apply in_map_iff in Hb'. destruct Hb' as [[b' w] [Hb1 Hb2]]. simpl in Hb1. subst b'.
+        exists (b, w). split; [reflexivity|]. apply filter_In. split; [exact Hb2|]. simpl.
+        rewrite (atom_eqb_neq src b) by (intro H; apply Hbs; symmetry; exact H). reflexivity.
+      + assert (Ht' : In tgt (keys (dict_set (f_atoms f) tgt (dget0 (f_atoms f) tgt + ns * p))))
+          by (apply keys_dict_set_in; left; reflexivity).
+        unfold keys in Ht'. apply in_map_iff in Ht'. destruct Ht' as [[t' w] [Ht1 Ht2]]. simpl in Ht1. subst t'.
+        exists (tgt, w). split; [reflexivity|]. apply filter_In. split; [exact Ht2|]. simpl.
+        rewrite (atom_eqb_neq src tgt Hne). reflexivity.
+    - split; apply keys_dict_set_in; right; apply keys_dict_set_in; [right; exact Hin|left; reflexivity]. }
+  assert (H2 : (2 <= length (keys d))%nat).
+  { apply (two_keys_length (keys d) b tgt); try tauto. unfold d. apply nodup_substituted, nodup_f_atoms. }
+  unfold keys in H2. rewrite map_length in H2. lia.
+Qed.
